@@ -548,7 +548,18 @@ def run(repo):
                 if isinstance(node, ast.Assign) and len(node.targets) == 1 and isinstance(node.targets[0], ast.Name) and \
                         node.targets[0].id in refs and isinstance(node.value, ast.Attribute) and node.value.attr == 'model' \
                         and self.depth > 0:
-                    self.sites.append((node, _holds(state, node.targets[0].id + ' is None')))
+                    nm_ = node.targets[0].id
+                    ok_ = _holds(state, nm_ + ' is None') or _holds(state, nm_, False) or \
+                        _holds(state, nm_ + ' == None')              # `if not model:` / `== None`: unset as well
+                    if not ok_:
+                        # evidence of a *widened* guard: the state knows  (model is None) or <something else>
+                        from rsx.flow import clauses_of as _cof
+                        widened = any(len(c_) > 1 and any(a_ in (nm_ + ' is None',) and p_ for a_, p_ in c_)
+                                      for c_ in _cof(state))
+                        if not widened:
+                            raise AnalysisError('%s: the reference `%s` is bound under a condition the rule cannot '
+                                                'relate to `%s is None`' % (fi.fq, nm_, nm_))
+                    self.sites.append((node, ok_))
 
             depth = 0
 
@@ -592,6 +603,15 @@ def run(repo):
                 return True
             if isinstance(v, ast.BinOp):            # 'a' + 'b', 2 * 3
                 return immutable(v.left) and immutable(v.right)
+            if isinstance(v, ast.UnaryOp):          # -np.inf
+                return immutable(v.operand)
+            if isinstance(v, ast.Attribute):        # np.inf, np.int8, Other.method
+                return True
+            if isinstance(v, ast.Call) and isinstance(v.func, ast.Name) and v.func.id in (
+                    'float', 'int', 'str', 'bool', 'complex', 'bytes', 'range', 'slice', 'tuple'):
+                return True
+            if isinstance(v, (ast.Compare, ast.IfExp, ast.BoolOp)):
+                return all(immutable(x) for x in ast.iter_child_nodes(v) if isinstance(x, ast.expr))
             if isinstance(v, ast.JoinedStr):
                 return True
             if isinstance(v, ast.Attribute) and isinstance(v.value, ast.Name):      # __mul__ = Other.__mul__
